@@ -9,7 +9,10 @@ def unit(pkg, test, quick, thorough, replay=None, **kw):
 PLAN = {
     "C01": {"level": "exploration", "units": [unit("cyc", "TestC01", 3000, 40000, replay="TestReplayC01")]},
     "C04": {"level": "exploration", "units": [unit("cyc", "TestC04", 3000, 40000, replay="TestReplayC04")]},
-    "C05": {"level": "exploration", "units": [unit("cyc", "TestC05", 3000, 40000, replay="TestReplayC05")]},
+    "C03": {"level": "exploration", "units": [unit("loop", "TestC03", 500, 8000, replay="TestReplayC03", shrinktime="30s")]},
+    "C05": {"level": "exploration", "units": [unit("cyc", "TestC05", 3000, 40000, replay="TestReplayC05"),
+                                              unit("loop", "TestC05Loop", 300, 5000, replay="TestReplayC05Loop", shrinktime="30s", seed_off=500)]},
+    "C06": {"level": "fault_enumeration", "units": [unit("loop", "TestC06", 500, 8000, replay="TestReplayC06", shrinktime="30s")]},
     "C07": {"level": "exploration", "units": [unit("cyc", "TestC07", 3000, 40000, replay="TestReplayC07")]},
     "C08": {"level": "exploration", "units": [unit("cyc", "TestC08", 3000, 40000, replay="TestReplayC08")]},
 }
